@@ -134,6 +134,10 @@ where
                 }
             }
             self
+        } else if self.model_function_result.is_err() {
+            // keep the error that was recorded first: the function itself is
+            // already invalid and its error names the actual defect
+            self
         } else {
             Self {
                 model_function_result: Err(ModelBuildError::InvalidDerivative {
